@@ -28,3 +28,20 @@ pub fn __unreachable() -> !
     requires false
     ensures false
 { panic!() }
+
+// model of Option::expect (rule R11f): returns the value, panics iff None
+pub trait OptExpect<T>: Sized {
+    spec fn is_some__(self) -> bool;
+    spec fn get__(self) -> T;
+    fn expect__(self) -> (r: T)
+        requires !mp() ==> self.is_some__()
+        ensures self.is_some__(), r == self.get__();
+}
+impl<T> OptExpect<T> for Option<T> {
+    open spec fn is_some__(self) -> bool { self is Some }
+    open spec fn get__(self) -> T { self->Some_0 }
+    //@ assume Option::expect : model of Option::expect (rule R11f): returns the value, panics iff None (contract on the trait declaration above)
+    #[verifier::external_body]
+    fn expect__(self) -> (r: T)
+    { self.unwrap() }
+}
